@@ -709,3 +709,322 @@ PROPS['C04'] = {
     'rule': 'encoder (spec side) written independently in Coq (proofs/FifoSpec.v) and Python (tools/progs.py); monitor compares frames '
             'and accessor values with the encoded ones at every truncation point',
 }
+
+
+# ----------------------------------------------------------------------------- C12-C15, C20: transports
+RICH_PREFIX = [
+    ('config_gen1_int', [('with_src', ['AccFilt2'])]), ('config_gen2_int', [('with_src', ['AccFilt2'])]),
+    ('config_actchg_int', [('with_src', ['AccFilt2'])]),
+    ('config_wkup_int', [('with_axes', [True, False, True])]),
+    ('config_interrupts', [('with_gen1_int', [True]), ('with_gen2_int', [True]), ('with_fwm_int', [True]), ('with_orientch_int', [True]),
+                           ('with_actch_int', [True]), ('with_d_tap_int', [True]), ('with_step_int', [True])]),
+]
+
+
+def rich_prefix():
+    return [Call(mk, setters=ss) for mk, ss in RICH_PREFIX]
+
+
+def all_operations(api, rng):
+    """one call of every public operation with a request that causes traffic from the enable-rich state"""
+    ops = [Call(m) for m in api.plain] + [Call('get_temp_celsius'), Call('perform_self_test'), Call('soft_reset'),
+                                          Call('read_fifo_frames', [rng.choice([0, 1, 7, 15])])]
+    for mk in sorted(api.maker):
+        ops.append(Call(mk, setters=P.rand_setters(api, rng, api.maker[mk], rng.randint(1, 3))))
+    ops.append(Call('config_int_pins', setters=[('with_gen1', ['Int1']), ('with_actch', ['Int2']), ('with_wkup', ['Both'])]))
+    ops.append(Call('config_gen1_int', setters=[('with_threshold', [rng.randint(1, 255)]), ('with_duration', [rng.randint(1, 65535)])]))
+    ops.append(Call('config_fifo', setters=[('with_watermark_thresh', [rng.randint(1, 1024)])]))
+    ops.append(Call('config_tap', setters=[('with_sensitivity', [rng.choice(['SENS1', 'SENS5'])])]))
+    return ops
+
+
+def api_programs(api, rng, n, ctors=('i2c', 'spi', 'spi3'), fault_rate=0.0):
+    out = []
+    for k in range(n):
+        p = P.random_program(api, rng, 'a%d' % k, max_calls=8, allow_load=False, fault_rate=fault_rate, ctor=rng.choice(ctors))
+        if fault_rate == 0.0:
+            p.ctor_faults = []
+        out.append(p)
+    return out
+
+
+def check_i2c_framing(prog, recs, addr):
+    for r in recs:
+        for c in r.raw:
+            if c[0] == 'i2c_w':
+                if c[1] != addr:
+                    return 'I2C write to device address 0x%02X, the build selects 0x%02X (%r)' % (c[1], addr, r.call)
+                if len(c[2]) != 2:
+                    return 'I2C register write of %d bytes in %r' % (len(c[2]), r.call)
+            elif c[0] == 'i2c_wr':
+                if c[1] != addr:
+                    return 'I2C read from device address 0x%02X, the build selects 0x%02X (%r)' % (c[1], addr, r.call)
+                if len(c[2]) != 1:
+                    return 'I2C read with %d address bytes in %r' % (len(c[2]), r.call)
+            elif c[0] != 'delay':
+                return 'non-I2C call %r on the I2C transport' % (c,)
+        if r.call is not None and r.ok():
+            msg = expected_reads(prog, r)
+            if msg:
+                return msg
+    return None
+
+
+def expected_reads(prog, r):
+    """burst shapes that the datasheet fixes: getters, FIFO read, reset"""
+    ev = [e for e in implrun.reg_events(r.raw) if e[0] != 'd']
+    op = r.call.op
+    if op in GETTER_SPEC:
+        a, n, _ = GETTER_SPEC[op]
+        if ev != [('r', a, n)]:
+            return '%s issued %r, expected one read of %d byte(s) at 0x%02X' % (op, ev, n, a)
+    elif op == 'read_fifo_frames':
+        if ev != [('r', 0x14, r.call.args[0])]:
+            return 'read_fifo_frames(%d) issued %r, expected one burst of that length at 0x14' % (r.call.args[0], ev)
+    elif op == 'soft_reset':
+        if ev != [('w', 0x7E, 0xB6), ('r', 0x0D, 1)]:
+            return 'soft_reset issued %r' % (ev,)
+    elif op == 'flush_fifo' and ev != [('w', 0x7E, 0xB0)]:
+        return 'flush_fifo issued %r' % (ev,)
+    elif op == 'clear_step_count' and ev != [('w', 0x7E, 0xB1)]:
+        return 'clear_step_count issued %r' % (ev,)
+    if any(e[0] == '?' for e in ev):
+        return '%s: ill-framed access %r' % (op, [e for e in ev if e[0] == '?'][0])
+    return None
+
+
+def mon_c12(api, rng, budget, variants):
+    viol, cases, samples = [], 0, []
+    for var in variants:
+        addr = 0x15 if var == 'alt' else 0x14
+        programs = api_programs(api, rng, budget // len(variants), ctors=('i2c',))
+        programs += [Prog('all%s' % var, 'i2c', rich_prefix() + all_operations(api, rng), fifo=bytes([0x48, 2, 0x80, 0]), pos=bytes([0, 8] * 3), neg=bytes(6))]
+        impl = corr.run_impl(programs, var, dump_each=True, tag='mon12')
+        for p in programs:
+            recs = implrun.records(p, impl[p.id])
+            cases += len(recs)
+            msg = check_i2c_framing(p, recs, addr)
+            if msg:
+                viol.append(violation('C12', p, msg + ' [build i2c-%s]' % var, extra={'variant': var}))
+        samples.append(programs[0].describe())
+    return {'cases': cases, 'violations': viol[:20], 'samples': samples[:2],
+            'notes': ['both address builds (features i2c-default and i2c-alt); every raw embedded-hal call checked for device address and framing; '
+                      'burst length per getter against the datasheet table']}
+
+
+def judge_c12(prog, recs):
+    return check_i2c_framing(prog, recs, 0x14)
+
+
+def check_spi_protocol(prog, recs, rec):
+    for r in recs:
+        for e in implrun.reg_events(r.raw):
+            if e[0] == '?':
+                return 'SPI protocol violated in %r: %s' % (r.call if r.call else 'constructor', e[1])
+        if r.ok() and r.raw:
+            levels = [c[0] for c in r.raw if c[0] in ('cs_low', 'cs_high')]
+            if levels and levels[-1] != 'cs_high':
+                return 'successful call %r returns with chip-select asserted' % (r.call if r.call else 'constructor')
+        if r.call is not None and r.ok():
+            msg = expected_reads(prog, r)
+            if msg:
+                return msg
+    if rec['dumps'] and rec['dumps'][-1] != [0]:
+        return '%d byte(s) clocked while chip-select was high' % rec['dumps'][-1][0]
+    return None
+
+
+def mon_c13(api, rng, budget, variants):
+    programs = api_programs(api, rng, budget, ctors=('spi', 'spi3'))
+    programs += [Prog('all_' + c, c, rich_prefix() + all_operations(api, rng), fifo=bytes([0x48, 2, 0x80, 0]), pos=bytes([0, 8] * 3), neg=bytes(6)) for c in ('spi', 'spi3')]
+    impl = corr.run_impl(programs, 'default', dump_each=True, tag='mon13')
+    viol, cases = [], 0
+    for p in programs:
+        recs = implrun.records(p, impl[p.id])
+        cases += len(recs)
+        msg = check_spi_protocol(p, recs, impl[p.id])
+        if not msg:
+            want = {'spi': [('r', 0, 1), ('r', 0, 1)], 'spi3': [('r', 0, 1), ('r', 0, 1), ('w', 0x7C, 1)]}[p.ctor]
+            got = implrun.reg_events(recs[0].raw)
+            if got != want:
+                msg = 'constructor %s issued %r, expected %r' % (p.ctor, got, want)
+        if msg:
+            viol.append(violation('C13', p, msg))
+    return {'cases': cases, 'violations': viol[:20], 'samples': [programs[0].describe()],
+            'notes': ['single ordered journal of pin edges and transfers decoded per chip-select window; both SPI constructors']}
+
+
+def judge_c13(prog, recs):
+    for r in recs:
+        for e in implrun.reg_events(r.raw):
+            if e[0] == '?':
+                return 'SPI protocol violated: %s' % e[1]
+    return None
+
+
+def mon_c14(api, rng, budget, variants):
+    base = api_programs(api, rng, budget, ctors=('i2c',))
+    base += [Prog('all', 'i2c', rich_prefix() + all_operations(api, rng), fifo=bytes([0x48, 2, 0x80, 0]), pos=bytes([0, 8] * 3), neg=bytes(6))]
+    twins = []
+    for p in base:
+        q = Prog(p.id + 's', 'spi', p.calls, p.ro, p.fifo, p.pos, p.neg)
+        twins.append(q)
+    impl = corr.run_impl(base + twins, 'default', dump_each=True, tag='mon14')
+    viol, cases = [], 0
+    for p, q in zip(base, twins):
+        ra, rb = implrun.records(p, impl[p.id]), implrun.records(q, impl[q.id])
+        cases += len(ra)
+        msg = None
+        if len(ra) != len(rb):
+            msg = 'different number of executed calls'
+        for i, (x, y) in enumerate(zip(ra, rb)):
+            if i == 0:
+                continue
+            if (x.status, x.payload, x.err) != (y.status, y.payload, y.err):
+                msg = 'call %r: I2C returns %s, SPI returns %s' % (x.call, x.result_str(), y.result_str())
+            elif implrun.reg_events(x.raw) != implrun.reg_events(y.raw):
+                msg = 'call %r: register-level accesses differ: I2C %r, SPI %r' % (x.call, implrun.reg_events(x.raw), implrun.reg_events(y.raw))
+            elif x.regs != y.regs:
+                msg = 'call %r: device states differ afterwards' % (x.call,)
+            if msg:
+                break
+        if msg:
+            viol.append(violation('C14', p, msg))
+    return {'cases': cases, 'violations': viol[:20], 'samples': [base[0].describe()],
+            'notes': ['every program run over both real transports against identical simulated chips; decoded register-level journals, results and register files compared']}
+
+
+def judge_c14(prog, recs):
+    return None
+
+
+def fault_sweep_programs(api, rng, ctors, max_k=24, data_only=False):
+    """every operation from the enable-rich state with every single-fault position"""
+    out, k_id = [], 0
+    for ctor in ctors:
+        for op in all_operations(api, rng):
+            for k in range(max_k):
+                c = Call(op.op, op.args, op.setters, faults=[k])
+                out.append(Prog('fs%d' % k_id, ctor, rich_prefix() + [c, Call('get_id')], fifo=bytes([0x48, 2]), pos=bytes([0, 8] * 3), neg=bytes(6)))
+                k_id += 1
+    return out
+
+
+def check_fault_report(prog, recs):
+    """C15 on the faulted call of a sweep program (the one before the trailing get_id)"""
+    for r in recs[1:]:
+        if not r.call.faults:
+            continue
+        k = r.call.faults[0]
+        fallible = [c for c in r.raw if c[0] != 'delay']
+        if r.status == 'panic':
+            return 'panic in %r' % r.call
+        if len(fallible) <= k:
+            continue        # the planned position was never reached
+        kind = 'ChipSelectPinError' if fallible[k][0] in ('cs_low', 'cs_high') else 'IOError'
+        if r.status != 'err' or r.err != kind or r.tok != k:
+            return '%r with call %d (%s) failing returned %s, expected Err(%s:%d)' % (r.call, k, fallible[k][0], r.result_str(), kind, k)
+        after = fallible[k + 1:]
+        if after not in ([], [('cs_high',)]):
+            return '%r: after the failing call %d the driver still issued %r' % (r.call, k, after)
+    return None
+
+
+def mon_c15(api, rng, budget, variants):
+    programs = fault_sweep_programs(api, rng, ('i2c', 'spi'), max_k=12 if budget < 20000 else 40)
+    if budget < len(programs):
+        programs = rng.sample(programs, budget)
+    recs = run_monitor_programs(programs)
+    viol = []
+    for p in programs:
+        msg = check_fault_report(p, recs[p.id])
+        if msg:
+            viol.append(violation('C15', p, msg))
+    return {'cases': len(programs), 'violations': viol[:20], 'samples': [programs[0].describe(), programs[-1].describe()],
+            'notes': ['every operation of the API catalogue from a state with seven interrupts enabled x single-fault positions, over I2C and SPI (bus and pin faults)']}
+
+
+def check_cs_release(prog, recs):
+    """C20: after an SPI data-transfer fault chip-select is released and the next access has its effect"""
+    for i, r in enumerate(recs[1:], 1):
+        if not r.call.faults:
+            continue
+        k = r.call.faults[0]
+        fallible = [c for c in r.raw if c[0] != 'delay']
+        if len(fallible) <= k or fallible[k][0] not in ('spi_w', 'spi_x'):
+            continue
+        levels = [c[0] for c in fallible if c[0] in ('cs_low', 'cs_high')]
+        if not levels or levels[-1] != 'cs_high' or fallible[-1] != ('cs_high',):
+            return '%r: SPI transfer %d failed and the call returned with chip-select still low (journal %r)' % (r.call, k, [c[0] for c in fallible])
+        if i + 1 < len(recs):
+            nxt = recs[i + 1]
+            if nxt.call.op == 'get_id' and (nxt.status != 'ok' or list(nxt.payload) != [0x90]):
+                return 'the access after the failed transfer was not decoded as a fresh transaction: get_id -> %s' % nxt.result_str()
+    return None
+
+
+def mon_c20(api, rng, budget, variants):
+    programs = fault_sweep_programs(api, rng, ('spi',), max_k=12 if budget < 20000 else 40)
+    if budget < len(programs):
+        programs = rng.sample(programs, budget)
+    recs = run_monitor_programs(programs)
+    viol = []
+    for p in programs:
+        msg = check_cs_release(p, recs[p.id])
+        if msg:
+            viol.append(violation('C20', p, msg))
+    return {'cases': len(programs), 'violations': viol[:20], 'samples': [programs[0].describe()],
+            'notes': ['every operation x every SPI fault position; chip-select level when the failing call returns and the effect of the following access (get_id must read 0x90)']}
+
+
+GENERIC_TB = ['the hand model of i2c.rs / spi.rs is what the theorems are about; the correspondence check runs the same programs with every '
+              'single fault position on the real transports and compares raw HAL journals, results and chip states']
+
+PROPS['C12'] = {
+    'targets': ['props/C12.vo'], 'variants': ['default', 'alt'],
+    'theorems': [('props.C12', n) for n in ['c12_frames', 'c12_every_operation', 'c12_constructor']],
+    'corr_gen': lambda api, rng, n: api_programs(api, rng, n, ctors=('i2c',), fault_rate=0.05),
+    'corr_n': (200, 3000), 'monitor': mon_c12, 'monitor_n': (300, 6000), 'judge': judge_c12, 'trusted_extra': GENERIC_TB,
+    'statement': 'for every API operation and the I2C constructor, from every quiet bus strapped to dev: the raw journal over T_i2c dev is one '
+                 'write(dev,[addr,value]) per register write and one write_read(dev,[addr],n) per register read, in the order of the '
+                 'register-level semantics (theorem for every program of the free monad whose addresses are 7-bit, which is proved for every '
+                 'operation); dev in {0x14, 0x15} checked against both feature builds',
+    'rule': 'correspondence and monitor run on BOTH builds (i2c-default, i2c-alt)',
+}
+PROPS['C13'] = {
+    'targets': ['props/C13.vo'],
+    'theorems': [('props.C13', n) for n in ['c13_windows', 'c13_addresses_7bit', 'c13_every_operation', 'c13_constructors']],
+    'corr_gen': lambda api, rng, n: api_programs(api, rng, n, ctors=('spi', 'spi3'), fault_rate=0.05),
+    'corr_n': (200, 3000), 'monitor': mon_c13, 'monitor_n': (300, 6000), 'judge': judge_c13, 'trusted_extra': GENERIC_TB,
+    'statement': 'for every API operation and both SPI constructors, from every quiet bus: the raw journal is one chip-select window per '
+                 'register event ([CsLow; write [addr,value]; CsHigh] / [CsLow; transfer [addr|0x80,0]; transfer n; CsHigh]), every address '
+                 'is below 0x80, the call ends with chip-select high and the decoder idle, and no byte is clocked while chip-select is high',
+}
+PROPS['C14'] = {
+    'targets': ['props/C14.vo'],
+    'theorems': [('props.C14', n) for n in ['c14_every_operation', 'c14_programs']],
+    'corr_gen': lambda api, rng, n: api_programs(api, rng, n, ctors=('i2c', 'spi')),
+    'corr_n': (200, 3000), 'monitor': mon_c14, 'monitor_n': (200, 4000), 'judge': judge_c14, 'trusted_extra': GENERIC_TB,
+    'statement': 'for every API operation, and by induction for every program of API calls: from quiet buses holding equal chips and equal '
+                 'shadows, the runs over I2C and over SPI return the same values / errors, leave the same shadow and chip and perform the same '
+                 'register-level reads and writes (both realise the register-level semantics `sem`)',
+}
+PROPS['C15'] = {
+    'targets': ['props/C15.vo'],
+    'theorems': [('props.C15', n) for n in ['c15_i2c', 'c15_spi', 'c15_register_level', 'c15_error_kinds', 'c15_api_call_spi', 'c15_api_call_i2c']],
+    'corr_gen': lambda api, rng, n: rng.sample(fault_sweep_programs(api, rng, ('i2c', 'spi'), max_k=10), n),
+    'corr_n': (300, 4000), 'monitor': mon_c15, 'monitor_n': (1200, 40000), 'judge': check_fault_report, 'trusted_extra': GENERIC_TB,
+    'statement': 'for every program of the free monad (hence every API operation), every transport, world and index k: if the k-th fallible '
+                 'HAL call fails and is reached, the run is Failed with IOError k (bus call) or ChipSelectPinError k (pin call), the failing '
+                 'call is entry k of the journal and only the chip-select release may follow it (induction on the program; case analysis on '
+                 'the position within the 1 / 3 / 4 HAL calls of a transaction)',
+}
+PROPS['C20'] = {
+    'targets': ['props/C20.vo'],
+    'theorems': [('props.C20', n) for n in ['c20_write', 'c20_read', 'c20_next_access']],
+    'corr_gen': lambda api, rng, n: rng.sample(fault_sweep_programs(api, rng, ('spi',), max_k=10), n),
+    'corr_n': (300, 4000), 'monitor': mon_c20, 'monitor_n': (600, 20000), 'judge': check_cs_release, 'trusted_extra': GENERIC_TB,
+    'statement': 'for every address, value and burst length: a failing data transfer of spi write_register / read_register returns that '
+                 'transfer\'s IOError, the journal ends with the chip-select release, the line is high and the decoder idle, the chip is '
+                 'untouched, and the next access is decoded as a fresh transaction with its specified effect',
+}
